@@ -13,7 +13,7 @@ from pyvc.state import St
 from pyvc.values import ClassRef, OpaqueFn, Opt, Ref, Sym, Unsupported, enum_sort, fresh, fresh_name, is_sym, simp, zbool, zstr
 
 from . import batcher
-from .setmodel import SEQ, SS, SeqModel, SetModel, arr_of, new_zmapset, new_zseq, new_zset, op_id, opelem_attr, rel
+from .setmodel import SEQ, SS, SeqModel, SetModel, arr_of, new_zmapset, new_zseq, new_zset, op_id, op_par, op_par_none, opelem_attr, rel
 
 FETCH = "state.ExecutionState.fetch_paginated_operations"
 MARK = "state.ExecutionState._mark_orphans"
@@ -87,15 +87,61 @@ class StateHooks(Hooks):
 
 
 # ------------------------------------------------------------------------------------------------ fetch_paginated_operations
+def _replay_history_orphan(inputs):
+    from pyvc.check import native
+    r_ = native("replay_orphan_replay.py", {})
+    return bool(r_.get("confirmed")), r_
+
+
 def merge_all_pages(chk, prefix="C01"):
     eng = Engine(hooks=StateHooks())
     eng.container_models["zseq"] = SeqModel()
+    eng.container_models["zset"] = eng.container_models["zsetview"] = eng.container_models["zmapset"] = SetModel()
     st = St()
     P = eng.program
-    chk.function(FETCH, "verified (loop invariant over the page chain)")
+    chk.function(FETCH, "verified (loop invariant over the page chain; per-element registration loop by generic element)")
     init = new_zseq(st, name="init_ops")
+    ptc = new_zmapset(st, "ptc")
+    ptc0 = dict(st.get(ptc))
     self_ = st.alloc(P.cls("state.ExecutionState"), {"durable_execution_arn": fresh("str", "arn"), "_service_client": st.alloc("opaque:DurableServiceClient", {}),
-                                                    "_operations_lock": st.alloc("opaque:Lock", {}), "operations": st.alloc("opaque:OpsMap", {})})
+                                                    "_operations_lock": st.alloc("opaque:Lock", {}), "operations": st.alloc("opaque:OpsMap", {}),
+                                                    "_parent_done_lock": st.alloc("opaque:Lock", {}), "_parent_to_children": ptc})
+
+    def register_loop(eng_, node, s):
+        """`for op in all_operations:` registering parent links - per-element loop: the body is executed once on a generic element against a
+        scratch copy of the map; its effect must be exactly `register (op.parent_id, op.operation_id) when the parent id is truthy`; the
+        quantified effect over the whole list is then applied"""
+        def f(it, s0):
+            seq = s0.get(it)["seq"]
+            j = z3.Int(fresh_name("j"))
+            sb = s0.fork()
+            elem = sb.alloc("opaque:OpElem", {"idx": Sym("int", j)})
+            before = dict(sb.get(ptc))
+            ok_paths = 0
+            for s1 in eng_.assign(node.target, elem, sb):
+                for k2, v2, s2 in eng_.exec_block(node.body, s1):
+                    after = s2.get(ptc)
+                    truthy = z3.And(z3.Not(op_par_none(j)), z3.Length(op_par(j)) > 0)
+                    p_, c_ = z3.String(fresh_name("p")), z3.String(fresh_name("c"))
+                    r_before = z3.And(z3.Select(before["has"], p_), z3.Select(z3.Select(before["sets"], p_), c_))
+                    r_after = z3.And(z3.Select(after["has"], p_), z3.Select(z3.Select(after["sets"], p_), c_))
+                    goal = z3.And(z3.BoolVal(k2 in ("fall", "continue")), z3.ForAll([p_, c_], r_after == z3.Or(r_before, z3.And(truthy, p_ == op_par(j), c_ == op_id(j)))))
+                    chk.prove(f"{prefix}.state.history_links_registered.body", s2.pc, goal, desc="one iteration registers exactly the element's (parent id, operation id) link, when it has a parent")
+                    ok_paths += 1
+            # effect of the whole loop (generic element => every element)
+            m0 = s0.get(ptc)
+            has2 = z3.Array(fresh_name("ptc.has"), SS, z3.BoolSort())
+            sets2 = z3.Array(fresh_name("ptc.sets"), SS, z3.ArraySort(SS, z3.BoolSort()))
+            p_, c_, i_ = z3.String(fresh_name("p")), z3.String(fresh_name("c")), z3.Int(fresh_name("i"))
+            r0 = z3.And(z3.Select(m0["has"], p_), z3.Select(z3.Select(m0["sets"], p_), c_))
+            r2 = z3.And(z3.Select(has2, p_), z3.Select(z3.Select(sets2, p_), c_))
+            added = z3.Exists([i_], z3.And(i_ >= 0, i_ < z3.Length(seq), z3.Not(op_par_none(seq[i_])), z3.Length(op_par(seq[i_])) > 0, p_ == op_par(seq[i_]), c_ == op_id(seq[i_])))
+            s0.assume(z3.ForAll([p_, c_], r2 == z3.Or(r0, added)))
+            s0.put(ptc, dict(m0, has=has2, sets=sets2))
+            s0.emit("links_registered", seq=seq)
+            return [("fall", None, s0)]
+        return eng_.lift(eng_.ev(node.iter, s), f)
+    eng.loop_handlers[(FETCH, "for", 0)] = register_loop
     token = fresh("str", "token")
     marker0 = eng.sym_of_type("str | None", "marker0", st)
     st.ghost["pages"] = z3.Empty(SEQ)
@@ -163,6 +209,18 @@ def merge_all_pages(chk, prefix="C01"):
                 goal = z3.And(z3.Length(init_seq) == 0, z3.Length(s.ghost["pages"]) == 0, z3.Not(ops.truth(s, s.ghost["marker"])))
             else:
                 goal = F
+        # C10: the parent link of every merged operation is known to the orphan bookkeeping
+        whole_seq = z3.Concat(init_seq, s.ghost["pages"])
+        i_ = z3.Int(fresh_name("i"))
+        m_now = s.get(ptc)
+        link = z3.And(z3.Select(m_now["has"], op_par(whole_seq[i_])), z3.Select(z3.Select(m_now["sets"], op_par(whole_seq[i_])), op_id(whole_seq[i_])))
+        kept_p, kept_c = z3.String(fresh_name("p")), z3.String(fresh_name("c"))
+        kept = z3.ForAll([kept_p, kept_c], z3.Implies(z3.And(z3.Select(ptc0["has"], kept_p), z3.Select(z3.Select(ptc0["sets"], kept_p), kept_c)), z3.And(z3.Select(m_now["has"], kept_p), z3.Select(z3.Select(m_now["sets"], kept_p), kept_c))))
+        chk.prove(f"{prefix}.state.history_links_registered", s.pc,
+                  z3.And(kept, z3.ForAll([i_], z3.Implies(z3.And(i_ >= 0, i_ < z3.Length(whole_seq), z3.Not(op_par_none(whole_seq[i_])), z3.Length(op_par(whole_seq[i_])) > 0), link))),
+                  desc="after the history (or a checkpoint response) was merged, the (parent id, operation id) link of EVERY merged operation is registered for orphan marking - operations that already exist send no START in this invocation, so this is the only place their links become known; no registered link is lost",
+                  sample="fetch_paginated_operations exit: forall merged op with a parent: R(parent, id)", replay=_replay_history_orphan,
+                  describe=lambda m: {"history": "re-invocation: STARTED parallel with two STARTED branches (no START is re-sent); min_successful=1; the slow branch issues a step after the parallel's SUCCEED"})
         chk.prove(f"{prefix}.state.merge_all_pages.all_pages", s.pc, goal,
                   desc="on return, operations was updated once with {op.operation_id: op} over initial operations ++ every page of the chain (later occurrences win, S: dict), and the chain ended with a falsy marker",
                   sample="fetch_paginated_operations exit: update source == init ++ pages, marker falsy")
